@@ -99,6 +99,8 @@ type Exec struct {
 	blobs        map[*ArrObj]BigVal
 	digests      map[*ArrObj]*smt.Term
 	signedMsgs   map[*ArrObj]*SignedMsg
+	derBlobs     map[*ArrObj][]derElem
+	digestVals   map[*Array]*smt.Term
 	initDone     map[*ssa.Package]bool
 	merging      bool
 	trace        []string
